@@ -11,6 +11,7 @@ import (
 	"bytes"
 	"encoding/hex"
 	"fmt"
+	"sort"
 	"time"
 
 	"github.com/gnolang/gno/tm2/pkg/amino"
@@ -431,6 +432,13 @@ func (o *oracle) onNodeEvent(n *node, e events.Event) {
 		// the node's own vote enters its vote set through the internal queue: count it when (and only
 		// when) the node reports having added it — its position in the log is its real position
 		v := x.Vote
+		if v != nil && v.ValidatorAddress == n.addr {
+			// its WAL record was fsynced before the vote was handled (internal messages use WriteSync)
+			if n.ownAdded == nil {
+				n.ownAdded = map[[3]int64]*types.Vote{}
+			}
+			n.ownAdded[[3]int64{v.Height, int64(v.Round), int64(v.Type)}] = v
+		}
 		if v != nil && v.ValidatorAddress == n.addr && nr.cur != nil && nr.cur.height == v.Height && !nr.cur.unknown {
 			nr.cur.set(v.Round, v.Type).add(v)
 		}
@@ -1007,6 +1015,47 @@ func (o *oracle) afterRestart(n *node) {
 	vals := o.twinVals[rs.Height]
 	if vals == nil {
 		kernel.Harnessf("restart: no twin validator set for height %d (n%d)", rs.Height, n.id)
+	}
+	// WAL catch-up must bring back every vote of the current height the node had signed AND added before it
+	// died (those records were fsynced): otherwise it has forgotten what it voted for (lock amnesia)
+	var ks [][3]int64
+	for k := range n.ownAdded {
+		ks = append(ks, k)
+	}
+	sort.Slice(ks, func(i, j int) bool { return less3(ks[i], ks[j]) })
+	for _, k := range ks {
+		v := n.ownAdded[k]
+		if v.Height < rs.Height {
+			delete(n.ownAdded, k)
+			continue
+		}
+		if v.Height != rs.Height {
+			continue
+		}
+		var vs *types.VoteSet
+		if v.Type == types.PrevoteType {
+			vs = rs.Votes.Prevotes(v.Round)
+		} else {
+			vs = rs.Votes.Precommits(v.Round)
+		}
+		idx, _ := rs.Validators.GetByAddress(n.addr)
+		var got *types.Vote
+		if vs != nil && idx >= 0 {
+			got = vs.GetByIndex(idx)
+		}
+		if got == nil || !bytes.Equal(got.Signature, v.Signature) {
+			oracle := "own_votes_not_replayed"
+			if rs.Height == s.initialH {
+				// the WAL of a fresh chain starts with MetaMessage{0}; catchupReplay(h) wants MetaMessage{h}
+				oracle = "own_votes_not_replayed_first_height"
+			}
+			s.fail("C33", oracle, "n%d restarted into height %d without its own %s (signed, WAL-synced and added before the crash): catch-up replay did not restore it (has %v)", n.id, rs.Height, voteDesc(v), got)
+			if s.stop {
+				return
+			}
+			break
+		}
+		s.r.Probe("own_vote_restored_by_wal_replay")
 	}
 	nr := o.nref(n)
 	nr.cur = newRefHVS(s.chainID, rs.Height, vals)
